@@ -88,6 +88,41 @@ def expires_probe():
     return out
 
 
+def dst_probe():
+    """run in a subprocess with a POSIX TZ rule (no tz database needed): Expires for lifetimes that cross a clock change, and
+    for an instant in the repeated hour, must still be the UTC instant now + lifetime"""
+    from email.utils import formatdate
+    from baize.wsgi import Response
+    import calendar
+    out = []
+    real = time.time
+    # instants (UTC): the day before the EU spring change 2024, before the US autumn change 2024, in the repeated hour
+    nows = [calendar.timegm((2024, 3, 30, 12, 0, 0)), calendar.timegm((2024, 11, 2, 18, 0, 0)), calendar.timegm((2024, 10, 27, 0, 30, 0)),
+            calendar.timegm((2024, 7, 1, 12, 0, 0))]
+    try:
+        for now in nows:
+            time.time = lambda _n=now: float(_n)
+            for delta in (0, 3600, 86400, 86400 * 2, 86400 * 200):
+                r = Response()
+                r.set_cookie("a", "b", expires=delta)
+                line = str(r.cookies[0])
+                want = "expires=" + formatdate(now + delta, usegmt=True)
+                if want not in line:
+                    out.append("now=%d lifetime=%d: %r, expected %s" % (now, delta, line, want))
+    finally:
+        time.time = real
+    return out
+
+
+def check_dst(tz):
+    env = dict(os.environ, TZ=tz, PYTHONPATH=os.environ.get("VERIF_REPO", "/repo") + ":" + _HERE)
+    p = subprocess.run([sys.executable, "-c", "import json, time; time.tzset(); from native import c16; print(json.dumps(c16.dst_probe()))"],
+                       capture_output=True, text=True, env=env, timeout=60, cwd=_HERE)
+    if p.returncode:
+        return ["DST probe failed under TZ=%s: %s" % (tz, p.stderr[-300:])]
+    return ["TZ=%s: %s" % (tz, x) for x in json.loads(p.stdout)[:3]]
+
+
 def check_tz(tz):
     env = dict(os.environ, TZ=tz, PYTHONPATH=os.environ.get("VERIF_REPO", "/repo") + ":" + _HERE)
     p = subprocess.run([sys.executable, "-c", "import json; from native import c16; print(json.dumps(c16.expires_probe()))"],
@@ -113,6 +148,8 @@ def check_tz(tz):
 def replay(inputs):
     if inputs.get("kind") == "tz":
         return {"violated": check_tz(inputs["tz"])}
+    if inputs.get("kind") == "dst":
+        return {"violated": check_dst(inputs["tz"])}
     return {"violated": check_roundtrip(inputs["name"], inputs["value"], inputs["context"])}
 
 
@@ -146,8 +183,15 @@ def bounded(tier, seed):
         distinct.add(("tz", tz))
         if v:
             failures.append({"inputs": {"kind": "tz", "tz": tz}, "violated": v})
+    # lifetimes that cross a clock change / an instant in the repeated hour, under POSIX TZ rules (no tz database needed)
+    for tz in ("CET-1CEST,M3.5.0,M10.5.0/3", "EST5EDT,M3.2.0,M11.1.0", "AEST-10AEDT,M10.1.0,M4.1.0/3", "UTC0", "IST-5:30"):
+        evals += 20
+        v = check_dst(tz)
+        distinct.add(("dst", tz))
+        if v:
+            failures.append({"inputs": {"kind": "dst", "tz": tz}, "violated": v})
     return {"evaluations": evals, "distinct_nontrivial": len(distinct), "failures": failures, "samples": samples,
             "rule": "token names x all values of length <= 1 over the 256 Latin-1 code points, %s, structured ones; sent back alone, "
                     "between two other cookies, after an older cookie of the same name and as one Cookie header field per pair (ASGI); Expires/Max-Age/delete_cookie "
-                    "probed in subprocesses under several TZ values" % ("all 65536 values of length 2" if tier == "thorough" else "a seeded sample of 3000 values of length 2"),
+                    "probed in subprocesses under several TZ values, and at pinned instants around daylight-saving changes under POSIX TZ rules" % ("all 65536 values of length 2" if tier == "thorough" else "a seeded sample of 3000 values of length 2"),
             "exhaustive": False}
